@@ -250,6 +250,11 @@ def visibleIdx (st : ConnSt) (s : Nat) : Option Nat :=
 
 /-- How the harness prints a response body: 8 bytes = a request tag (big-endian u64). -/
 def tagStr (body : List UInt8) : String :=
+  if body.length > 64 then
+    -- long bodies are printed as length + FNV-1a
+    let h : UInt32 := body.foldl (fun h b => (h ^^^ b.toUInt32) * 16777619) 2166136261
+    s!"big:{body.length}:{h.toNat}"
+  else
   if body.length == 8 then
     let v := body.foldl (fun acc b => acc * 256 + b.toNat) 0
     if v == 18446744073709551615 then "unsolicited" else toString v
@@ -293,7 +298,6 @@ def rawPartial (st : ConnSt) : Bool :=
   | .boundary => false
   | _ => true
 
-/-- Big-endian u64 (a request tag). -/
 /-- Byte `i` of the body of a BIG answer (`B` op; harness `big_body`): a fixed pattern; with a victim stream and a
 body long enough, the 17 bytes from offset 2^20 on are a whole RESULT frame addressed to that stream. -/
 def bigByte (len : Nat) (victim : Option Nat) (i : Nat) : UInt8 :=
@@ -319,6 +323,7 @@ then grow as the body arrives, the read LIMIT staying `length`) is C08's `readBo
 def bigTag (len : Nat) (victim : Option Nat) : String :=
   s!"big:{len}:{(fnvLoop len victim len 0 2166136261).toNat}"
 
+/-- Big-endian u64 (a request tag). -/
 def tagBytes (k : Nat) : List UInt8 :=
   (List.range 8).map fun i => UInt8.ofNat (k / 256 ^ (7 - i) % 256)
 
